@@ -38,12 +38,12 @@ struct FailMM { UriMemoryManager mm; long count=0, failAt=0;
 // ---------------------------------------------------------------- the shared world and the call table
 template<class A> struct World {
   typedef typename A::Ch Ch; typedef typename A::Uri Uri; typedef typename A::QL QL;
-  Arena ar; std::vector<Uri*> uris; std::vector<Text> utexts; std::vector<const Ch*> strs; std::vector<Text> stexts; QL* ql=nullptr;
+  Arena ar; std::vector<Uri*> uris; std::vector<Text> utexts; std::vector<const Ch*> uptrs; std::vector<const Ch*> strs; std::vector<Text> stexts; QL* ql=nullptr;
   struct Call { std::string fn, key; std::function<std::string()> run; };
   std::vector<Call> calls;
   World():ar(4<<20){
     for(const char*s:{"s://u@h:1/a/b/c?q#f","s://h/a/b/","s://h/a/../b/./c","s:/a/b","s:a/b","t://[::1]/x","s://1.2.3.4/","//h/p","../x/./y","?q","#f","","./a:b","s://H%41/%7e%3a?%41","a/../..//b","s://h/a/b/c/d/e/f/g","s://[v7.Fe:Ed]/p","//u@[vF.x]:1","s://[2001:DB8::ABCD]/A","S://U@Ex.COM:80/%41"}){
-      Text t=T(s); Ch*p=ar.text<Ch>(t); Uri*u=(Uri*)ar.get(sizeof(Uri)); const Ch*e; if(A::ParseSingleUriExMm(u,p,p+t.size(),&e,&ar.mm)==URI_SUCCESS){ uris.push_back(u); utexts.push_back(t); } }
+      Text t=T(s); Ch*p=ar.text<Ch>(t); Uri*u=(Uri*)ar.get(sizeof(Uri)); const Ch*e; if(A::ParseSingleUriExMm(u,p,p+t.size(),&e,&ar.mm)==URI_SUCCESS){ uris.push_back(u); utexts.push_back(t); uptrs.push_back(p); } }
     for(const char*s:{"a b+c%41%0D%0A\r\nz","k1=v1&k2=v+2&&=&k3&%3D=%26","/bin/bash","C:\\dir\\file name","\\\\srv\\share\\x","file:///C:/x%20y","file:///etc/passwd","%2","s://[::1","hello world \xe4\xf6"}){ Text t=T(s); strs.push_back(ar.text<Ch>(t)); stexts.push_back(t); }
     { const Ch*q=strs[1]; int cnt=0; A::DissectQueryMallocExMm(&ql,&cnt,q,q+stexts[1].size(),URI_TRUE,URI_BR_DONT_TOUCH,&ar.mm); }
     build(); ar.readonly(true); }
@@ -64,6 +64,14 @@ template<class A> struct World {
       for(unsigned m:{63u,8u,5u}) add("ParseNormalize",key+" mask"+std::to_string(m),[=]{ std::basic_string<Ch> s=to_str<Ch>(tt); Uri v; const Ch*e; int rc=A::ParseSingleUriEx(&v,s.data(),s.data()+s.size(),&e); if(rc) return J().num("rc",rc).done(); rc=A::NormalizeSyntaxEx(&v,m); std::string r=res_uri(rc,v); A::FreeUriMembers(&v); return r; });
       add("ParseMakeOwner",key,[=]{ std::basic_string<Ch> s=to_str<Ch>(tt); Uri v; const Ch*e; int rc=A::ParseSingleUriEx(&v,s.data(),s.data()+s.size(),&e); if(rc) return J().num("rc",rc).done(); rc=A::MakeOwner(&v); std::fill(s.begin(),s.end(),(Ch)'#'); std::string r=res_uri(rc,v); A::FreeUriMembers(&v); return r; });
       for(long f=1;f<=6;++f) add("ParseNormalizeFail",key+" k"+std::to_string(f),[=]{ FailMM fm(f); std::basic_string<Ch> s=to_str<Ch>(tt); Uri v; const Ch*e; int rc=A::ParseSingleUriExMm(&v,s.data(),s.data()+s.size(),&e,&fm.mm); if(rc) return J().num("rc",rc).done(); rc=A::NormalizeSyntaxExMm(&v,63,&fm.mm); std::string r=res_uri(rc,v); A::FreeUriMembersMm(&v,&fm.mm); return r; });
+      // a private URI that BORROWS shared text (parsed from the shared buffer itself; resolved / relativized against shared operands) is then
+      // normalized: the library must switch to its own copies before it changes a character - the shared text is read-only here
+      { const Ch*sp=uptrs[i]; size_t sn=tt.size();
+        for(unsigned m:{63u,4u,1u,8u,48u}) add("BorrowNormalize",key+" mask"+std::to_string(m),[=]{ Uri v; const Ch*e; int rc=A::ParseSingleUriEx(&v,sp,sp+sn,&e); if(rc) return J().num("rc",rc).done(); rc=A::NormalizeSyntaxEx(&v,m); std::string r=res_uri(rc,v); A::FreeUriMembers(&v); return r; });
+        add("BorrowMakeOwner",key,[=]{ Uri v; const Ch*e; int rc=A::ParseSingleUriEx(&v,sp,sp+sn,&e); if(rc) return J().num("rc",rc).done(); rc=A::MakeOwner(&v); std::string r=res_uri(rc,v); A::FreeUriMembers(&v); return r; }); }
+      for(size_t k=0;k<uris.size();k+=3){ Uri*b=uris[k]; std::string key2=key+" | "+show(utexts[k]);
+        add("AddBaseNormalize",key2,[=]{ Uri d; int rc=A::AddBaseUri(&d,u,b); if(rc){ A::FreeUriMembers(&d); return J().num("rc",rc).done(); } rc=A::NormalizeSyntaxEx(&d,63); std::string r=res_uri(rc,d); A::FreeUriMembers(&d); return r; });
+        add("RemoveBaseNormalize",key2,[=]{ Uri d; int rc=A::RemoveBaseUri(&d,u,b,URI_FALSE); if(rc){ A::FreeUriMembers(&d); return J().num("rc",rc).done(); } rc=A::NormalizeSyntaxEx(&d,63); std::string r=res_uri(rc,d); A::FreeUriMembers(&d); return r; }); }
       (void)txt; }
     for(size_t i=0;i<strs.size();++i){ const Ch*p=strs[i]; size_t n=stexts[i].size(); std::string key=show(stexts[i]);
       add("ParseShared",key,[=]{ Uri v; const Ch*e=nullptr; int rc=A::ParseSingleUriEx(&v,p,p+n,&e); J j; j.num("rc",rc); if(rc==URI_SUCCESS) j.raw("val",Proj<A>::uri(v)); else j.num("epos",e?(long long)(e-p):-1); A::FreeUriMembers(&v); return j.done(); });
